@@ -301,6 +301,11 @@ class Exec:
             return ModVal(mi['modules'][name])
         if name in mi['names']:
             return ClassVal(mi['names'][name])
+        hook = getattr(self.c, 'global_model', None)
+        if hook is not None:
+            r = hook(name)
+            if r is not NotImplemented:
+                return r
         if name in BUILTINS:
             return BuiltinVal(name)
         raise SymErr('unknown name %s (line %s)' % (name, getattr(node, 'lineno', '?')))
@@ -575,6 +580,8 @@ class Exec:
             return base[3][base[2].index(attr)]
         if isinstance(base, TableRow):
             return base.field(attr)
+        if hasattr(base, 'pyvc_getattr'):
+            return base.pyvc_getattr(attr)
         raise SymErr('attribute %s of %r (line %s)' % (attr, base, getattr(node, 'lineno', '?')))
 
     def index(self, sq, i, st, node, what='index'):
